@@ -358,6 +358,14 @@ def handdown(ctx, o, ps: PassShape, pt):
         fo, itc = ci
         it = ps.ex.expand(itc, ps.cfg.node_of(fo))
         base_it = sched.whole_seq(it)
+        parts = facts.comp_parts(base_it)
+        if parts and isinstance(parts[0], ast.Name) and isinstance(parts[1], ast.Name) and parts[0].id == parts[1].id and \
+                match(f"{ps.task}.children", sched.whole_seq(parts[2])):
+            # a comprehension over the children: skipping children that are already in the memo changes nothing, any other filter does
+            other_f = [c_ for c_ in parts[3] if not match(f"{parts[1].id}.id not in {ps.memo}", c_)]
+            if other_f:
+                o.refute(ps.f, fo, fo.iter, f"the recursion into the children skips those failing `{src(other_f[0])[:60]}`: they are never scheduled")
+            base_it = sched.whole_seq(parts[2])
         if not match(f"{ps.task}.children", base_it):
             if not (isinstance(base_it, ast.Name) or (pt is not None and same(itc, pt.get('iter')))):
                 n_unknown += 1        # a loop over an expression that is neither the children nor the dependency collection
@@ -505,6 +513,21 @@ def search_monotone(ctx, o, S):
             o.undecided(f, r, r, "search result is not midnight(day) +/- fraction")
             return
         dvar = m
+    fcfg = cfg_of(f)
+
+    while_tests = [w.test for w in walk_no_nested(f.node) if isinstance(w, ast.While)]
+
+    def _sign_x(t, p):
+        """sign test of a branch condition, a hoisted flag (`has_room = free > 0; if has_room:`) resolved first; the guard of an
+        enclosing while loop (the loop's own step bound) does not make a statement of the body conditional"""
+        if p and any(t is wt for wt in while_tests):
+            return True
+        r = sched.sign_test(t, p)
+        if r is None:
+            at = fcfg.node_containing(t)
+            r = sched.sign_test(ex.expand(t, at) if at is not None else t, p)
+        return r
+
     defs = fl.defs_of(dvar)
     inits = [x for x in defs if x.kind == 'assign' and not (x.node is not None and any(
         isinstance(r, ast.Return) for r in [x.node.ast]))]
@@ -526,7 +549,7 @@ def search_monotone(ctx, o, S):
                 else:
                     n_step += 1
                     cs = cfg_of(f).conditions(x.node)
-                    if cs and not all(sched.sign_test(t, p) for t, p in cs):
+                    if cs and not all(_sign_x(t, p) for t, p in cs):
                         o.refute(f, x.stmt, x.stmt, "the day step is conditional")
                         ok = False
                 continue
@@ -565,7 +588,7 @@ def search_monotone(ctx, o, S):
                 if [c for c in cfg_of(f).conditions(x.node)]:
                     cs = cfg_of(f).conditions(x.node)
                     # allowed: being after a `return` inside `if free > 0`
-                    if not all(sched.sign_test(t, p) for t, p in cs):
+                    if not all(_sign_x(t, p) for t, p in cs):
                         o.refute(f, x.stmt, x.stmt, "the day step is conditional")
                         ok = False
         else:
